@@ -122,6 +122,11 @@ def run(mod, tier, seed, replay=None):
     cases = []
     if replay:
         payload = json.load(open(replay))
+        if "case" not in payload or payload.get("witness") or payload.get("kind") in ("proof-broken", "correspondence-not-evaluable", "witness-crashed"):
+            # nothing to re-execute on the implementation: the replay names the obligation that no longer checks
+            print(json.dumps({k: payload.get(k) for k in ("property", "kind", "obligation", "detail", "messages", "note")}, indent=1)[:3000])
+            print(f"VIOLATION property={pid} replay={replay} no-failing-input-found")
+            return 1
         cases = [payload["case"]]
     else:
         cdir = os.path.join(VERIF, "corpus", pid)
@@ -246,7 +251,8 @@ def run(mod, tier, seed, replay=None):
                 else:
                     nrep += 1
                     path = write_replay(pid, nrep, {"property": pid, "kind": "property-fails-on-implementation",
-                                                    "messages": [msg], "case": wcase, "signature": sig})
+                                                    "messages": [msg], "case": wcase, "signature": sig, "witness": True,
+                                                    "note": "explicit witness of a finding, re-run by the check's witnesses() on every run"})
                     violations.append(("property-fails-on-implementation", path, [msg]))
         except Exception as e:
             nrep += 1
